@@ -236,7 +236,9 @@ int main(int argc, char **argv)
         }
     });
     // dense size sweep (chunk arithmetic must transfer exactly `size` elements whatever the split): every size in
-    // [41, 18432] and around the integer constants of the library source, team arguments 7 and 13
+    // [41, 18432] and around the integer constants of the library source, team arguments 7 and 13 (plain build only;
+    // the ASan twin keeps the listed sizes)
+    if (!EXACT)
     {
         std::set<u64> sw;
         for (u64 z = 41; z <= 18432; z++) sw.insert(z);
